@@ -18,6 +18,7 @@
 #include <sstream>
 #include <iostream>
 #include <unistd.h>
+#include <dirent.h>
 #include <errno.h>
 #include <fcntl.h>
 #include <signal.h>
@@ -455,6 +456,17 @@ static std::vector<std::string> split(const std::string &s, char sep)
   return v;
 }
 
+static int count_fds()
+{
+  int n = 0;
+  DIR *d = opendir("/proc/self/fd");
+  if (!d)
+    return -1;
+  while (readdir(d))
+    n++;
+  closedir(d);
+  return n;
+}
 static std::string run_fileop(const std::vector<std::string> &a)
 {
   if (a[0] == "enc")
@@ -490,7 +502,13 @@ static void isolated(const std::string &id, const std::vector<std::vector<std::s
     }
     std::string r;
     for (size_t i = 0; i < ops.size(); ++i)
-      r += (i ? " ; " : "") + run_fileop(ops[i]);
+    {
+      std::string one = run_fileop(ops[i]);
+      // descriptors open after the operation: a handle an operation leaves open shows up as a count that grows along a history
+      if (getenv("WV_COUNT_FDS"))
+        one += (one.find(" | ") == std::string::npos ? " | fds=" : " fds=") + std::to_string(count_fds());
+      r += (i ? " ; " : "") + one;
+    }
     fprintf(res, "%s %s\n", id.c_str(), r.c_str());
     fflush(res);
 #ifdef WENCRY_VERIF_SHIM_H
